@@ -124,6 +124,7 @@ func runC11(rcx *RunCtx) {
 				chunks = append(chunks, fmt.Sprintf("Tread(off %d, count %d)", m.Offset, m.Count))
 				d := readModel(m.Offset, int(m.Count))
 				if k == badChunk {
+					simrt.Fault([]string{"", "server.short-count", "server.error-reply", "server.zero-count"}[badKind])
 					firstBad = k
 					switch badKind {
 					case 1:
@@ -143,6 +144,7 @@ func runC11(rcx *RunCtx) {
 				chunks = append(chunks, fmt.Sprintf("Twrite(off %d, len %d)", m.Offset, len(m.Data)))
 				n := len(m.Data)
 				if k == badChunk {
+					simrt.Fault([]string{"", "server.short-count", "server.error-reply", "server.zero-count"}[badKind])
 					firstBad = k
 					switch badKind {
 					case 1:
